@@ -379,29 +379,40 @@ def correspond(ctx):
             continue
         from chython import ReactionContainer
         rx = ReactionContainer(mols[0], mols[2], mols[1])
+        req = 'rxn %d %d %d %s' % (len(mols[0]), len(mols[1]), len(mols[2]),
+                                   ' '.join(wire.mol_to_line(m) for role in mols for m in role))
         real = outcome(lambda: rx.compose())
-        s_rxn.add('rxn %d %d %d %s' % (len(mols[0]), len(mols[1]), len(mols[2]),
-                                       ' '.join(wire.mol_to_line(m) for role in mols for m in role)),
-                  real if isinstance(real, str) else cgr_canon(real), {'case': i})
+        s_rxn.add(req, real if isinstance(real, str) else cgr_canon(real), {'case': i})
+        after = ' '.join(wire.mol_to_line(m) for role in (rx.reactants, rx.reagents, rx.products) for m in role)
+        if norm(after) != norm(req.split(' ', 4)[4]) and not _state.get('mutation_reported'):
+            # observation changed the observed object: a history on which the signature / read-back clauses fail
+            res = oracle_history(g['roles'], rng, first=('compose',))
+            if res:
+                _state['mutation_reported'] = True
+                ctx.fail(res[0], res[1], {'kind': 'history', 'roles': [[raw_json(x) for x in role] for role in g['roles']],
+                                          'ops': res[2]})
         programs.update(('ReactionContainer.compose', 'Graph.union', 'Graph.remap'))
         ctx.dist('rxn:roles=%d/%d/%d' % tuple(min(len(x), 3) for x in mols))
         ctx.dist('rxn:' + (real if isinstance(real, str) else 'ok'))
     small_exhaustive(ctx, s_comp, s_exact)
     _state['cases'] = cases
-    s_fmt, s_read, s_tok = Stream(ctx, 'fmt'), Stream(ctx, 'read'), Stream(ctx, 'tokens')
+    s_fmt, s_read, s_tok, s_hash = Stream(ctx, 'fmt'), Stream(ctx, 'read'), Stream(ctx, 'tokens'), Stream(ctx, 'hash')
     format_and_read(ctx, rng, raws, cases, s_fmt, s_read, programs)
     cgr_tokens(ctx, rng, s_tok, programs)
+    hash_stream(ctx, s_hash, programs)
     renumbering(ctx, rng, cases)
+    mirror_states(ctx, rng)
     disagreements = []
-    for s, primary in ((s_comp, True), (s_rxn, True), (s_fmt, True), (s_read, True), (s_tok, True), (s_exact, False)):
+    for s, primary in ((s_comp, True), (s_rxn, True), (s_fmt, True), (s_read, True), (s_tok, True), (s_exact, False), (s_hash, False)):
         bad = s.run()
         if bad and primary:
             ctx.broke('correspondence', s.name, json.dumps([{'request': b[0][:3000], 'real': b[1][:1500], 'model': b[2][:1500]}
                                                             for b in bad[:3]]))
             disagreements += [(s.name, b) for b in bad]
         elif bad:
-            # exact dict order is a private observation point (DESIGN §10): recorded, never an alarm on its own
-            ctx.notes.append(f'{s.name}: {len(bad)} exact-dict-order differences (secondary stream), first: '
+            # exact dict order / hash values are private observation points (DESIGN §10): recorded, never an alarm on their own
+            # (what the property needs from them is checked on the real code: `composeWith` by `compose`, `hash` by `mirror`)
+            ctx.notes.append(f'{s.name}: {len(bad)} differences (secondary stream), first: '
                              + json.dumps({'real': bad[0][1][:300], 'model': bad[0][2][:300]}))
         ctx.dist(f'{s.name}:disagreements', len(bad))
     _state['disagreements'] = disagreements
@@ -606,6 +617,11 @@ def format_and_read(ctx, rng, raws, cases, s_fmt, s_read, programs):
         ctx.count(('relational', i, 'perm+roundtrip'))
         if res:
             ctx.fail(res[0], res[1], {'kind': 'roles', 'roles': [[raw_json(x) for x in role] for role in roles]})
+        # histories: every observer gives on a used object what it gives on a fresh one
+        res = oracle_history(roles, rng)
+        ctx.count(('relational', i, 'history'))
+        if res:
+            ctx.fail(res[0], res[1], {'kind': 'history', 'roles': [[raw_json(x) for x in role] for role in roles], 'ops': res[2]})
         # what the writer wrote is read by the model of the reader as well
         text = format(rx)
         s_read.add('read ' + cps(text), read_real(text), {'text': text, 'flavour': 'written'})
@@ -728,6 +744,17 @@ def oracle_renumber(R, P, f, rng=None):
     return None
 
 
+def minus_one_tie(R, P):
+    """the reaction has two atoms whose (charge, p_charge) differ only by -1 <-> -2 (known hash tie)"""
+    sts = set()
+    for n in set(R.atoms) | set(P.atoms):
+        a, b = R.atoms.get(n), P.atoms.get(n)
+        a, b = a or b, b or a
+        sts.add((a[2], b[2]))
+    f = lambda st: tuple(-2 if x == -1 else x for x in st)
+    return any(x != y and f(x) == f(y) for x in sts for y in sts)
+
+
 def renumbering(ctx, rng, cases):
     for i, g in enumerate(cases):
         ids = sorted(set(g['R'].atoms) | set(g['P'].atoms))
@@ -739,8 +766,11 @@ def renumbering(ctx, rng, cases):
         if res and res[0] == 'inherited':
             ctx.dist('renumber:inherited-C01-tie')
         elif res:
-            ctx.fail(res[0], res[1], {'kind': 'renumber', 'R': raw_json(g['R']), 'P': raw_json(g['P']),
-                                      'map': {str(k): v for k, v in f.items()}})
+            sig = res[0]
+            if sig == 'C15/cgr-string/renumbering' and minus_one_tie(g['R'], g['P']):
+                sig = KNOWN_MINUS_ONE
+            ctx.fail(sig, res[1], {'kind': 'renumber', 'R': raw_json(g['R']), 'P': raw_json(g['P']),
+                                   'map': {str(k): v for k, v in f.items()}})
         else:
             ctx.dist('renumber:invariant')
 
@@ -784,6 +814,194 @@ def oracle_roundtrip(mols):
         which = [n for n, a, b in zip(('reactants', 'reagents', 'products'), want, got) if a != b]
         return 'C15/read-write/roles', f'{text!r} read back with different {"/".join(which)}: {got} (written from {want})'
     return None
+
+
+# ------------------------------------------------------------------------------------------------
+# histories: observers must not change what later observers see
+# ------------------------------------------------------------------------------------------------
+
+OBSERVERS = ('format', 'format!c', 'formatm', 'str', 'compose', 'centre', 'hash', 'copy', 'molstr', 'molhash', 'eq', 'len',
+             'roundtrip', 'flush_keep')
+
+
+def observe(rx, op, k=0):
+    """one observation of a reaction object, rendered as a comparable value"""
+    from chython import smiles
+    if op == 'format':
+        return format(rx, '')
+    if op == 'format!c':
+        return format(rx, '!c')
+    if op == 'formatm':
+        return format(rx, 'm')
+    if op == 'str':
+        return str(rx)
+    if op == 'compose':
+        return outcome(lambda: cgr_canon(~rx))
+    if op == 'centre':
+        return outcome(lambda: repr(sorted((~rx).center_atoms)))
+    if op == 'hash':
+        return hash(rx)
+    if op == 'copy':
+        return format(rx.copy(), '')
+    if op == 'molstr':
+        ms = list(rx.molecules())
+        return str(ms[k % len(ms)])
+    if op == 'molhash':
+        ms = list(rx.molecules())
+        return hash(ms[k % len(ms)])
+    if op == 'eq':
+        return rx == rx.copy()
+    if op == 'len':
+        return (len(rx), [len(m) for m in rx.molecules()])
+    if op == 'roundtrip':
+        return repr(role_strings([rx.reactants, rx.reagents, rx.products])) + repr(outcome(lambda: role_strings(
+            [(b := smiles(format(rx, ''))).reactants, b.reagents, b.products])))
+    if op == 'flush_keep':
+        rx.flush_cache(keep_molecule_cache=True)
+        return None
+    raise ValueError(op)
+
+
+def fresh_rxn(roles):
+    from chython import ReactionContainer
+    mols = [[build(x) for x in role] for role in roles]
+    return ReactionContainer(mols[0], mols[2], mols[1])
+
+
+def oracle_history(roles, rng, first=(), length=5):
+    """Apply a random sequence of observers to ONE reaction object; every observation must equal the same observation of a
+    freshly assembled reaction (observers are pure: signature, roles and molecules do not depend on what was asked before)."""
+    if not any(roles):
+        return None
+    rx = fresh_rxn(roles)
+    ops = [(o, 0) for o in first] + [(rng.choice(OBSERVERS), rng.randrange(6)) for _ in range(length)]
+    ops.append((rng.choice(('format', 'roundtrip', 'copy')), 0))
+    done = []
+    for op, k in ops:
+        done.append([op, k])
+        try:
+            got = observe(rx, op, k)
+            want = observe(fresh_rxn(roles), op, k)
+        except Exception as e:
+            return 'C15/history/raises/' + type(e).__name__, f'after {done}: {type(e).__name__}: {e}', done
+        if got != want:
+            return ('C15/history/' + op.rstrip('!cm'), f'after {done[:-1]} the observation {op} gives {str(got)[:300]!r}, on a fresh '
+                    f'reaction object {str(want)[:300]!r}', done)
+    return None
+
+
+# ------------------------------------------------------------------------------------------------
+# mirror states: invariants behind the canonical numbering must tell all dynamic states apart
+# ------------------------------------------------------------------------------------------------
+
+BOND_STATES = [(o, p) for o in (None, 1, 2, 3, 4, 8) for p in (None, 1, 2, 3, 4, 8) if (o, p) != (None, None)]
+ATOM_STATES = [(c, pc, r, pr) for c in range(-4, 5) for pc in range(-4, 5) for r in (False, True) for pr in (False, True)]
+
+
+def mirror_case(kind, s1, s2, z_end=6):
+    """X-C-X: the two ends / the two bonds carry the states s1, s2 -> (R, P)"""
+    R = Raw({1: [z_end, None, 0, False], 2: [6, None, 0, False], 3: [z_end, None, 0, False]})
+    P = R.copy()
+    if kind == 'bond':
+        for pair, (o, p) in (((1, 2), s1), ((2, 3), s2)):
+            if o:
+                R.bonds[pair] = o
+            if p:
+                P.bonds[pair] = p
+    else:
+        R.bonds = {(1, 2): 1, (2, 3): 1}
+        P.bonds = dict(R.bonds)
+        for n, (c, pc, r, pr) in ((1, s1), (3, s2)):
+            R.atoms[n][2], R.atoms[n][3] = c, r
+            P.atoms[n][2], P.atoms[n][3] = pc, pr
+    return R, P
+
+
+def oracle_mirror(kind, s1, s2, z_end=6):
+    """str(CGR) of X-C-X with different states in mirror positions must not change when 1 and 3 swap numbers"""
+    R, P = mirror_case(kind, s1, s2, z_end)
+    f = {1: 3, 2: 2, 3: 1}
+    try:
+        a = str(build(R, labels=False) ^ build(P, labels=False))
+        b = str(build(R.renamed(f), labels=False) ^ build(P.renamed(f), labels=False))
+    except Exception as e:
+        return 'C15/cgr-string/raises/' + type(e).__name__, f'{kind} states {s1} / {s2}: {type(e).__name__}: {e}'
+    if sorted(a.split('.')) != sorted(b.split('.')):
+        return 'C15/cgr-string/renumbering', f'{kind} states {s1} and {s2} in mirror positions: {a!r} vs {b!r} after swapping numbers 1 and 3'
+    return None
+
+
+def minus_one_class(kind, a, b):
+    """the two atom states are identified by CPython's hash(-1) == hash(-2) (known finding)"""
+    if kind != 'atom':
+        return False
+    f = lambda st: tuple(-2 if isinstance(x, int) and not isinstance(x, bool) and x == -1 else x for x in st)
+    return a != b and f(a) == f(b)
+
+
+KNOWN_MINUS_ONE = 'C15/cgr-string/renumbering/hash-minus-one'
+
+
+def mirror_states(ctx, rng):
+    """every ordered pair of different bond states (exhaustive, 35*34), atom states: all direction mirrors + a sample;
+    also: hash() of the real DynamicBond / DynamicElement objects is injective on these states (Morgan seeds)"""
+    from chython.containers.bonds import DynamicBond
+    from chython.periodictable import DynamicElement
+    cases = [('bond', a, b, 6) for a in BOND_STATES for b in BOND_STATES if a != b]
+    cases += [('atom', (c, pc, r, pr), (pc, c, pr, r), z) for (c, pc, r, pr) in ATOM_STATES if (c, pc, r, pr) != (pc, c, pr, r)
+              for z in (6, 7)]
+    n_extra = 600 if ctx.quick else 12000
+    for _ in range(n_extra):
+        a, b = rng.sample(ATOM_STATES, 2)
+        cases.append(('atom', a, b, rng.choice((6, 7, 8, 16))))
+    # states that share a Morgan seed on the real objects are the candidates that matter most: test them first
+    seeds = {}
+    for st in BOND_STATES:
+        b = object.__new__(DynamicBond)
+        b._order, b._p_order = st
+        seeds.setdefault(('bond', hash(b)), []).append(st)
+    for st in ATOM_STATES:
+        a = object.__new__(DynamicElement.from_atomic_number(6))
+        a._isotope, a._charge, a._p_charge, a._is_radical, a._p_is_radical = None, st[0], st[1], st[2], st[3]
+        seeds.setdefault(('atom', hash(a)), []).append(st)
+    collide = [(k[0], x, y, 6) for k, v in seeds.items() if len(v) > 1 for x in v for y in v if x != y]
+    ctx.dist('mirror:states-sharing-a-hash', len(collide))
+    known = 0
+    reported = set()
+    for kind, a, b, z in collide + cases:
+        ctx.count(('relational', 'mirror', kind, a, b, z))
+        res = oracle_mirror(kind, a, b, z)
+        if res:
+            R, P = mirror_case(kind, a, b, z)
+            inp = {'kind': 'renumber', 'R': raw_json(R), 'P': raw_json(P), 'map': {'1': 3, '2': 2, '3': 1}}
+            if minus_one_class(kind, a, b) and res[0] == 'C15/cgr-string/renumbering':
+                known += 1
+                if KNOWN_MINUS_ONE not in reported:
+                    reported.add(KNOWN_MINUS_ONE)
+                    ctx.fail(KNOWN_MINUS_ONE, res[1], inp)
+                continue
+            ctx.fail(res[0], res[1], inp)
+            return
+    ctx.dist('mirror:known-minus-one-collisions', known)
+    ctx.dist('mirror:bond-state-pairs-exhaustive', len(BOND_STATES) * (len(BOND_STATES) - 1))
+    ctx.dist('mirror:atom-state-pairs', len(cases) - len(BOND_STATES) * (len(BOND_STATES) - 1))
+
+
+def hash_stream(ctx, s_hash, programs):
+    """DynamicBond.__hash__ / DynamicElement.__hash__ vs the model (secondary: private observation point)"""
+    from chython.containers.bonds import DynamicBond
+    from chython.periodictable import DynamicElement
+    for o, p in BOND_STATES:
+        b = object.__new__(DynamicBond)
+        b._order, b._p_order = o, p
+        s_hash.add(f'bhash {_o(o)} {_o(p)}', str(hash(b)), {'bond': (o, p)})
+    for z, iso in ((6, 0), (7, 15), (8, 18), (17, 0)):
+        for c, pc, r, pr in ATOM_STATES[::(1 if z == 6 else 7)]:
+            a = object.__new__(DynamicElement.from_atomic_number(z))
+            a._isotope, a._charge, a._p_charge, a._is_radical, a._p_is_radical = iso or None, c, pc, r, pr
+            s_hash.add(f'ahash {z} {iso} {c} {pc} {int(r)} {int(pr)}', str(hash(a)), {'atom': (z, iso, c, pc, r, pr)})
+    programs.update(('DynamicBond.__hash__', 'DynamicElement.__hash__'))
+
 
 # ------------------------------------------------------------------------------------------------
 # property-level oracle on the real code (never consults the Lean model)
@@ -942,6 +1160,12 @@ def search(ctx):
     if res:
         ctx.fail(res[0], res[1], res[2])
         return
+    for kind, a, b in [('bond', a, b) for a in BOND_STATES for b in BOND_STATES if a != b]:
+        res = oracle_mirror(kind, a, b)
+        if res:
+            R, P = mirror_case(kind, a, b)
+            ctx.fail(res[0], res[1], {'kind': 'renumber', 'R': raw_json(R), 'P': raw_json(P), 'map': {'1': 3, '2': 2, '3': 1}})
+            return
     n = 0
     while time.time() < t_end:
         g = ordered[n] if n < len(ordered) else gen_reaction(rng, raws)
@@ -977,6 +1201,10 @@ def search(ctx):
             res = oracle_perm(mols) or oracle_roundtrip(mols)
             if res:
                 ctx.fail(res[0], res[1], {'kind': 'roles', 'roles': [[raw_json(x) for x in role] for role in roles]})
+                return
+            res = oracle_history(roles, rng, first=rng.choice(((), ('compose',), ('molstr',), ('str',))))
+            if res:
+                ctx.fail(res[0], res[1], {'kind': 'history', 'roles': [[raw_json(x) for x in role] for role in roles], 'ops': res[2]})
                 return
         text, flavour = gen_read_text(rng)
         if flavour == 'writer':
@@ -1079,6 +1307,20 @@ def probe(inp):
     if kind == 'token-pair':
         res = oracle_tokens()
         return (True, f'{res[0]}: {res[1]}') if res else (False, 'all bond/atom states have distinct CGR signatures with > exactly on change')
+    if kind == 'history':
+        import random
+        roles = [[raw_from_json(x) for x in role] for role in inp['roles']]
+        rx = fresh_rxn(roles)
+        done = []
+        for op, k in inp['ops']:
+            done.append([op, k])
+            try:
+                got, want = observe(rx, op, k), observe(fresh_rxn(roles), op, k)
+            except Exception as e:
+                return True, f'after {done}: {type(e).__name__}: {e}'
+            if got != want:
+                return True, f'after {done[:-1]} the observation {op} gives {str(got)[:300]!r}, on a fresh object {str(want)[:300]!r}'
+        return False, 'every observation equals the observation of a fresh reaction object'
     if kind == 'renumber':
         res = oracle_renumber(raw_from_json(inp['R']), raw_from_json(inp['P']), {int(k): v for k, v in inp['map'].items()})
         if res and res[0] != 'inherited':
